@@ -384,6 +384,15 @@ pub fn depth3_sample(want: usize) -> (Vec<T>, u64) {
 
 /// run one (tree, failure plan) on the real combinators and on CompRef
 pub fn check_tree(t: &T, fail_at: &[usize]) -> (Option<(String, String)>, usize) {
+    {
+        let (tt, ff) = (format!("{t:?}"), fail_at.to_vec());
+        mcx::watch::enter(Box::new(move |_| ("compose/hang".to_string(), format!("tree {tt} failing calls {ff:?}"), json!({"check":"C14","scenario":"tree","tree":tt,"fail_at":ff}))));
+    }
+    let r = check_tree_inner(t, fail_at);
+    mcx::watch::leave();
+    r
+}
+fn check_tree_inner(t: &T, fail_at: &[usize]) -> (Option<(String, String)>, usize) {
     let log = Rc::new(RefCell::new(Log { calls: vec![], fail_at: fail_at.to_vec() }));
     let mut n = 0;
     let op = build(t, &mut n, &log);
